@@ -92,19 +92,29 @@ def struct_program(rng):
             return "inc:" + v, rng.choice(["%s++;", "++%s;"]) % v
         return "dec:" + v, rng.choice(["%s--;", "--%s;"]) % v
 
-    def cond():
+    def cond(depth=0):
+        k = rng.random()
+        if depth < 2 and k < 0.12:
+            (t1, s1), (t2, s2) = cond(depth + 1), cond(depth + 1)
+            return ["and"] + t1 + t2, "(%s && %s)" % (s1, s2)
+        if depth < 2 and k < 0.24:
+            (t1, s1), (t2, s2) = cond(depth + 1), cond(depth + 1)
+            return ["or"] + t1 + t2, "(%s || %s)" % (s1, s2)
+        if depth < 2 and k < 0.30:
+            t1, s1 = cond(depth + 1)
+            return ["not"] + t1, "!(%s)" % s1
         k = rng.random()
         if k < 0.2:
             v = rng.choice(names)
-            return "t:" + v, v
+            return ["t:" + v], v
         if k < 0.35:
             v = rng.choice(names)
-            return "nt:" + v, "!" + v
+            return ["nt:" + v], "!" + v
         o = rng.choice(COPS)
         ordered = o[0] not in ("eq", "ne")
         t1, s1, c1, n1 = atom(nonzero=ordered)
         t2, s2, c2, n2 = atom(allow_const=not c1, nonzero=ordered)
-        return "cmp:%s:%s:%s" % (o[0], t1, t2), "%s %s %s" % (s1, o[1], s2)
+        return ["cmp:%s:%s:%s" % (o[0], t1, t2)], "%s %s %s" % (s1, o[1], s2)
 
     def stmt(depth):
         k = rng.random()
@@ -119,39 +129,41 @@ def struct_program(rng):
             return ["{"] + sum([p[0] for p in parts], []) + ["}"], "{ " + " ".join(p[1] for p in parts) + " }"
         if k < 0.72:
             ct, cs = cond(); bt, bs = stmt(depth + 1)
-            return ["if", ct] + bt, "if (%s) %s" % (cs, brace(bs))
+            return ["if"] + ct + bt, "if (%s) %s" % (cs, brace(bs))
         if k < 0.82:
             ct, cs = cond(); bt, bs = stmt(depth + 1); et, es = stmt(depth + 1)
-            return ["ife", ct] + bt + et, "if (%s) %s else %s" % (cs, brace(bs), brace(es))
+            return ["ife"] + ct + bt + et, "if (%s) %s else %s" % (cs, brace(bs), brace(es))
         counting = rng.random() < 0.6          # loops that count, so that most of them terminate
         v = rng.choice(names)
         if k < 0.89:
             ct, cs = cond(); bt, bs = stmt(depth + 1)
             if counting:
-                ct, cs = rng.choice([("t:" + v, v), ("cmp:ne:v%s:c0" % v, "%s != 0" % v), ("cmp:ne:c0:v%s" % v, "0 != %s" % v)])
+                ct, cs = rng.choice([(["t:" + v], v), (["cmp:ne:v%s:c0" % v], "%s != 0" % v), (["cmp:ne:c0:v%s" % v], "0 != %s" % v),
+                                     (["and", "t:" + v, "cmp:ne:v%s:c200" % v], "(%s && %s != 200)" % (v, v))])
                 bt, bs = ["{"] + bt + ["dec:" + v, "}"], "{ %s %s--; }" % (bs, v)
-            return ["wh", ct] + bt, "while (%s) %s" % (cs, brace(bs))
+            return ["wh"] + ct + bt, "while (%s) %s" % (cs, brace(bs))
         if k < 0.95:
             ct, cs = cond(); bt, bs = stmt(depth + 1)
             if counting:
                 n = rng.randint(1, 6)
-                ct, cs = rng.choice([("cmp:lt:v%s:c%d" % (v, n), "%s < %d" % (v, n)), ("cmp:ne:v%s:c%d" % (v, n), "%s != %d" % (v, n)),
-                                     ("cmp:le:v%s:c%d" % (v, n), "%s <= %d" % (v, n)), ("cmp:gt:c%d:v%s" % (n, v), "%d > %s" % (n, v))])
+                ct, cs = rng.choice([(["cmp:lt:v%s:c%d" % (v, n)], "%s < %d" % (v, n)), (["cmp:ne:v%s:c%d" % (v, n)], "%s != %d" % (v, n)),
+                                     (["cmp:le:v%s:c%d" % (v, n)], "%s <= %d" % (v, n)), (["cmp:gt:c%d:v%s" % (n, v)], "%d > %s" % (n, v)),
+                                     (["not", "cmp:ge:v%s:c%d" % (v, n)], "!(%s >= %d)" % (v, n))])
                 bt, bs = ["{"] + bt + ["inc:" + v, "}"], "{ %s %s++; }" % (bs, v)
-            return ["do"] + bt + [ct], "do %s while (%s);" % (brace(bs), cs)
+            return ["do"] + bt + ct, "do %s while (%s);" % (brace(bs), cs)
         it, is_ = flat(); ut, us = flat(); ct, cs = cond(); bt, bs = stmt(depth + 1)
         if counting:
             n = rng.randint(1, 6)
             if rng.random() < 0.5:
                 it, is_ = "asg:%s:c0" % v, "%s = 0;" % v
-                ct, cs = rng.choice([("cmp:lt:v%s:c%d" % (v, n), "%s < %d" % (v, n)), ("cmp:ne:v%s:c%d" % (v, n), "%s != %d" % (v, n)),
-                                     ("cmp:ge:c%d:v%s" % (n, v), "%d >= %s" % (n, v))])
+                ct, cs = rng.choice([(["cmp:lt:v%s:c%d" % (v, n)], "%s < %d" % (v, n)), (["cmp:ne:v%s:c%d" % (v, n)], "%s != %d" % (v, n)),
+                                     (["cmp:ge:c%d:v%s" % (n, v)], "%d >= %s" % (n, v))])
                 ut, us = "inc:" + v, v + "++"
             else:
                 it, is_ = "asg:%s:c%d" % (v, n), "%s = %d;" % (v, n)
-                ct, cs = rng.choice([("t:" + v, v), ("cmp:ne:v%s:c0" % v, "%s != 0" % v), ("cmp:ge:v%s:c1" % v, "%s >= 1" % v)])
+                ct, cs = rng.choice([(["t:" + v], v), (["cmp:ne:v%s:c0" % v], "%s != 0" % v), (["cmp:ge:v%s:c1" % v], "%s >= 1" % v)])
                 ut, us = "dec:" + v, v + "--"
-        return ["for", it, ct, ut] + bt, "for (%s %s; %s) %s" % (is_, cs, us.rstrip(";"), brace(bs))
+        return ["for", it] + ct + [ut] + bt, "for (%s %s; %s) %s" % (is_, cs, us.rstrip(";"), brace(bs))
 
     def brace(s_):
         # a body that is a single flat statement is sometimes written without braces; an `if` body is
@@ -195,6 +207,9 @@ def run(chk):
         r = h.compile(src, 0)
         ma = m.req("genstruct " + " ".join(toks))
         chk.case(key=src, nontrivial=any(t in ("if", "ife", "wh", "do", "for") for t in toks))
+        for t in toks:
+            if t in ("and", "or", "not", "if", "ife", "wh", "do", "for"):
+                chk.count("struct_" + t)
         chk.count("struct_programs")
         if r["status"] != "ok":
             chk.tie_broken("program of the declared stage-2 fragment rejected: %s" % r["status"], {"source": src}); continue
